@@ -301,12 +301,18 @@ Definition stitch (l : layout) (img : list Z) (fit : option (list fit_entry)) (a
 
     What the C19 operations read and write of one BootGuard object: the IBBSegments list of
     every SE element and the digest list of SE[0] (BG 1.0: the single Digest): algorithm id
-    and the preimage of the stored HashBuffer ([None]: a buffer no call of this model
-    produced, e.g. the empty buffer of a new manifest).  Nothing else survives a call:
+    and what the stored HashBuffer holds ([Some (x, p)]: the digest, made with algorithm [x], of
+    the bytes [p]: what GetIBBsDigest returned for [x]; [x] differs from the entry's algorithm
+    when the caller changed HashAlg and kept the buffer; [None]: any other buffer: the nil /
+    empty buffer of a new manifest, bytes of any length a loaded manifest came with).  CreateIBBDigest allocates a new
+    buffer of the digest's length for every entry, so what a buffer held before, and how long
+    it was, never reaches the stored digest ([create_digest_loop] ignores the old value).  Nothing else survives a call:
     the image (and its layout, FIT, CBFS directory) is an argument of every operation, so
     whatever an earlier call was given cannot influence a later one. *)
 
-Record bg_state : Type := mkBG { bg_segs : list (list segment); bg_digs : list (Z * option (list Z)) }.
+Definition stored : Type := option (Z * list Z).
+
+Record bg_state : Type := mkBG { bg_segs : list (list segment); bg_digs : list (Z * stored) }.
 
 Definition se_count (st : bg_state) : Z := zlen (bg_segs st).
 Definition segs_of (st : bg_state) (i : Z) : list segment := nth (Z.to_nat i) (bg_segs st) [].
@@ -320,11 +326,34 @@ Definition alg_hashable (ver alg : Z) : bool :=
   if ver =? 1 then (alg =? 4) || (alg =? 11)
   else (alg =? 4) || (alg =? 11) || (alg =? 12) || (alg =? 13) || (alg =? 18).
 
+(** The caller rewrites the digest list of SE[0] (BG 1.0: the single Digest) while the object
+    is in use: a manifest that comes with digests (ReadJSON, a parsed BPM, the config of an
+    earlier run), the hash algorithm of an entry changed, entries re-ordered.  The HashBuffer
+    of a kept entry is the SAME buffer as before, whatever its length.
+    [EKeep idx alg]: the entry that was at position [idx] goes here, its HashAlg set to [alg];
+      its buffer keeps its bytes;
+    [ENew alg d]: a new entry; [d = Some (x, p)]: its buffer holds the digest, made with
+      algorithm [x], of the bytes [p]; [d = None]: any other buffer (nil, empty, bytes of any
+      length that are no digest the model knows). *)
+Inductive dig_edit : Type :=
+| EKeep (idx : nat) (alg : Z)
+| ENew (alg : Z) (d : stored).
+
+Definition edit_alg (e : dig_edit) : Z := match e with EKeep _ a => a | ENew a _ => a end.
+
+Definition edit_entry (old : list (Z * stored)) (e : dig_edit) : Z * stored :=
+  match e with
+  | EKeep i a => (a, match nth_error old i with Some (_, d) => d | None => None end)
+  | ENew a d => (a, d)
+  end.
+
 Inductive op : Type :=
 (* the caller assigns SE[se].IBBSegments (config file, ReadJSON, a parsed manifest) *)
 | OSetSegs (se : Z) (segs : list segment)
 (* the caller replaces the digest list of SE[0] by empty digests of the given algorithms *)
 | OSetAlgs (algs : list Z)
+(* the caller rewrites the digest list of SE[0], keeping / moving / re-labelling buffers *)
+| OEditDigs (es : list dig_edit)
 (* CreateIBBSegments(se, flags, file) on a UEFI image with the given FIT *)
 | OCreateSegs (se flags : Z) (fit : option (list fit_entry))
 (* the same on a coreboot image *)
@@ -356,20 +385,22 @@ Definition store_created (st : bg_state) (i : Z) (r : outcome (list segment)) : 
 (** the loop of CreateIBBDigest over the digest list: entries before a failing one keep
     their new digest *)
 Fixpoint create_digest_loop (ver : Z) (l : layout) (img : list Z) (segs : list segment)
-         (digs : list (Z * option (list Z))) : list (Z * option (list Z)) * outcome unit :=
+         (digs : list (Z * stored)) : list (Z * stored) * outcome unit :=
   match digs with
   | [] => ([], Ok tt)
   | (a, old) :: t =>
       if alg_name_roundtrips ver a then
         match get_ibbs_digest ver a l img segs with
-        | Ok ap => let '(t', r) := create_digest_loop ver l img segs t in ((a, Some (snd ap)) :: t', r)
+        | Ok ap => let '(t', r) := create_digest_loop ver l img segs t in ((a, Some ap) :: t', r)
         | o => (digs, unit_of o)
         end
       else (digs, Err 5)
   end.
 
 (** fiano ValidateIBB against the stored digest [0]: "no IBB hashes" / "invalid hash
-    function" / hash mismatch are all reported as (false, error) *)
+    function" / hash mismatch are all reported as (false, error).  A buffer that holds a digest
+    made with another algorithm than the entry's is a mismatch (other length or other
+    function: equal only by a hash collision). *)
 Definition match_stored (ver : Z) (st : bg_state) (img : list Z) : outcome bool :=
   if se_count st =? 0 then Panic
   else match bg_digs st with
@@ -377,7 +408,7 @@ Definition match_stored (ver : Z) (st : bg_state) (img : list Z) : outcome bool 
        | (a, d) :: _ =>
            if alg_hashable ver a then
              bind (validator_preimage img (segs_of st 0)) (fun q =>
-               Ok (match d with Some p => zlist_eqb p q | None => false end))
+               Ok (match d with Some (x, p) => (x =? a) && zlist_eqb p q | None => false end))
            else Ok false
        end.
 
@@ -385,6 +416,7 @@ Definition step (ver : Z) (st : bg_state) (o : op) : bg_state * result :=
   match o with
   | OSetSegs i s => (if 0 <=? i then put_segs st i s else st, RNone)
   | OSetAlgs algs => (mkBG (bg_segs st) (map (fun a => (a, None)) algs), RNone)
+  | OEditDigs es => (mkBG (bg_segs st) (map (edit_entry (bg_digs st)) es), RNone)
   | OCreateSegs i flags fit => store_created st i (create_ibb_segments (se_count st) i flags fit)
   | OCreateSegsCbfs i flags fs co files =>
       store_created st i (create_ibb_segments_cbfs (se_count st) i flags fs co files)
